@@ -136,7 +136,7 @@ def run_job(job):
         attrs = job["attrs"]
         names = [a["name"] for a in attrs]
         ds = Dataset.create(path=tmp / "d", metadata=Metadata(description="rt"), dataset_structure=DatasetStructure(
-            saved_data_description=[Attribute(name=a["name"], dtype=a["dtype"], shape=tuple(a["shape"])) for a in attrs],
+            saved_data_description=[Attribute(name=a["name"], dtype=a.get("declared", a["dtype"]), shape=tuple(a["shape"])) for a in attrs],
             shard_file_type=job["format"], compression=job["compression"], examples_per_shard=job.get("eps", 3)))
         res = {"write_error": None, "stored": None, "read": {}, "presented": []}
         try:
@@ -163,7 +163,38 @@ def run_job(job):
                 res["stored"] = stored_fb(fresh, tmp / "d")
             except Exception as ex_:  # noqa: BLE001
                 res["stored"] = {"error": f"{type(ex_).__name__}: {str(ex_)[:200]}"}
+        if job.get("companion"):
+            # a second dataset with an equally named attribute of another dtype, read through the Rust interface at the same time:
+            # the main dataset's iterator is created first, the companion's second, and they are pulled alternately
+            c = job["companion"]
+            cds = Dataset.create(path=tmp / "c", metadata=Metadata(description="rt2"), dataset_structure=DatasetStructure(
+                saved_data_description=[Attribute(name=a["name"], dtype=a["dtype"], shape=tuple(a["shape"])) for a in c["attrs"]],
+                shard_file_type="fb", compression=job["compression"], examples_per_shard=2))
+            with cds.filler() as f:
+                for ex in c["examples"]:
+                    f.write_example(values={a["name"]: present(a, p)[0] for a, p in zip(c["attrs"], ex)}, split="train")
+            try:
+                it1 = iter(Dataset(tmp / "d").as_numpy_iterator_rust(split="train", repeat=False, shuffle=0, file_parallelism=1))
+                it2 = iter(Dataset(tmp / "c").as_numpy_iterator_rust(split="train", repeat=False, shuffle=0, file_parallelism=1))
+                held, other = [], []
+                done1 = done2 = False
+                while not (done1 and done2):
+                    if not done1:
+                        try:
+                            held.append(next(it1))
+                        except StopIteration:
+                            done1 = True
+                    if not done2:
+                        try:
+                            other.append(next(it2))
+                        except StopIteration:
+                            done2 = True
+                res["read"]["rust_interleaved"] = [[dump(e[n]) for n in names] for e in held]
+            except BaseException as ex_:  # noqa: BLE001
+                res["read"]["rust_interleaved"] = {"error": f"{type(ex_).__name__}: {str(ex_)[:200]}"}
         for r in job["readers"]:
+            if r == "rust_interleaved":
+                continue
             if r == "rust":
                 from sedpack import _sedpack_rs
                 if job["compression"] not in _sedpack_rs.RustIter.supported_compressions():
